@@ -699,6 +699,7 @@ int choose(int n, int dflt) {
     return v;
 }
 int64_t now_ms() { return WALL_BASE_MS + G.mono_ms + G.wall_off_ms; }
+void note_nontrivial() { G.stats.harness_nontrivial++; }
 std::vector<ThreadInfo> threads() {
     Ign ig;
     std::vector<ThreadInfo> r;
